@@ -443,4 +443,288 @@ theorem applyList_miss (acc : Bool) (n cols rs : Nat) (Dv : Nat → Col) (Pv : N
     · right; simp [hkj])]
   simp
 
+/-! ### `glwe_tensor_square_apply` as a list of updates -/
+
+def copyU (n cols rs : Nat) (Dv : Nat → Col) (i : Nat) : Upd := (cix cols i i, fun _ => vecCopy n rs (Dv i))
+
+def sqPairU (cols : Nat) (Dv : Nat → Col) (Pv : Nat → Nat → Col) (i j : Nat) : Upd :=
+  if i < j then (cix cols i j, fun _ => vecSubAssignW w64 (vecSubAssignW w64 (Pv i j) (Dv i)) (Dv j)) else (0, id)
+
+def squareList (n cols rs : Nat) (Dv : Nat → Col) (Pv : Nat → Nat → Col) : List Upd :=
+  (List.range cols).map (copyU n cols rs Dv) ++ (List.range cols).flatMap (fun i => (List.range cols).map (sqPairU cols Dv Pv i))
+
+theorem foldl_congr_mem {α β} (l : List α) (f g : β → α → β) (a : β) (h : ∀ s x, x ∈ l → f s x = g s x) :
+    l.foldl f a = l.foldl g a := by
+  induction l generalizing a with
+  | nil => rfl
+  | cons x xs ih =>
+    rw [List.foldl_cons, List.foldl_cons, h a x List.mem_cons_self]
+    exact ih _ (fun s y hy => h s y (List.mem_cons_of_mem _ hy))
+
+theorem mapM_range_some {τ} (m : Nat) (D : Nat → Option τ) (Dv : Nat → τ) (h : ∀ i, i < m → D i = some (Dv i)) :
+    (List.range m).mapM D = some ((List.range m).map Dv) := by
+  induction m with
+  | zero => rfl
+  | succ k ih =>
+    rw [List.range_succ, List.mapM_append, ih (fun i hi => h i (by omega))]
+    simp [h k (by omega)]
+
+theorem tensorSquareCore_some (n cols rs : Nat) (D : Nat → Option Col) (P : Nat → Nat → Option Col)
+    (Dv : Nat → Col) (Pv : Nat → Nat → Col) (res0 : List Col)
+    (hD : ∀ i, i < cols → D i = some (Dv i)) (hP : ∀ i j, i < j → j < cols → P i j = some (Pv i j)) :
+    tensorSquareCore n cols rs D P res0 = some ((squareList n cols rs Dv Pv).foldl applyU res0) := by
+  unfold tensorSquareCore squareList
+  rw [mapM_range_some cols D Dv hD]
+  simp only [Option.bind_some]
+  rw [List.foldl_append, foldl_flatMap_applyU, List.foldl_map]
+  have hget : ∀ i, i < cols → ((List.range cols).map Dv).getD i [] = Dv i := by
+    intro i hi
+    simp [List.getD_eq_getElem?_getD, List.getElem?_map, List.getElem?_range hi]
+  have e0 : (List.range cols).foldl (fun st i => mulUpdCol st (colIdx cols i 0 + i) (fun _ => vecCopy n rs (((List.range cols).map Dv).getD i []))) res0
+      = (List.range cols).foldl (fun st i => applyU st (copyU n cols rs Dv i)) res0 := by
+    apply foldl_congr_mem
+    intro st i hi
+    rw [hget i (List.mem_range.mp hi)]
+    rfl
+  rw [e0]
+  generalize (List.range cols).foldl (fun st i => applyU st (copyU n cols rs Dv i)) res0 = st0
+  have houter : ∀ m, m ≤ cols → ∀ s1 : List Col,
+      (List.range m).foldl (fun (st : Option (List Col)) i =>
+        (List.range cols).foldl (fun (st : Option (List Col)) j =>
+          if i < j then st.bind (fun st => (P i j).map (fun p =>
+            mulUpdCol (mulUpdCol (mulUpdCol st (colIdx cols i 0 + j) (fun _ => p)) (colIdx cols i 0 + j)
+              (fun r => vecSubAssignW w64 r (((List.range cols).map Dv).getD i []))) (colIdx cols i 0 + j)
+              (fun r => vecSubAssignW w64 r (((List.range cols).map Dv).getD j []))))
+          else st) st) (some s1)
+      = some ((List.range m).foldl (fun st x => ((List.range cols).map (sqPairU cols Dv Pv x)).foldl applyU st) s1) := by
+    intro m
+    induction m with
+    | zero => intro _ _; rfl
+    | succ k ih =>
+      intro hk s1
+      rw [List.range_succ, List.foldl_append, List.foldl_append, ih (by omega)]
+      simp only [List.foldl_cons, List.foldl_nil]
+      have h2 := foldl_cond_bind_some cols (fun j => k < j) (P k) (Pv k)
+        (fun p st j => mulUpdCol (mulUpdCol (mulUpdCol st (colIdx cols k 0 + j) (fun _ => p)) (colIdx cols k 0 + j)
+              (fun r => vecSubAssignW w64 r (((List.range cols).map Dv).getD k []))) (colIdx cols k 0 + j)
+              (fun r => vecSubAssignW w64 r (((List.range cols).map Dv).getD j [])))
+        ((List.range k).foldl (fun st x => ((List.range cols).map (sqPairU cols Dv Pv x)).foldl applyU st) s1)
+        (fun j hj hc => hP k j hc hj)
+      rw [h2, List.foldl_map]
+      congr 1
+      apply foldl_congr_mem
+      intro s j hjm
+      have hj := List.mem_range.mp hjm
+      unfold applyU sqPairU cix
+      by_cases hkj : k < j
+      · simp only [hkj, if_true]
+        rw [mulUpdCol_comp, mulUpdCol_comp, hget k (by omega), hget j hj]
+        rfl
+      · simp [hkj, mulUpdCol_id]
+  exact houter cols (Nat.le_refl _) st0
+
+theorem squareList_diag (n cols rs : Nat) (Dv : Nat → Col) (Pv : Nat → Nat → Col) (i : Nat) (hi : i < cols) (v : Col) :
+    colFold (squareList n cols rs Dv Pv) (cix cols i i) v = vecCopy n rs (Dv i) := by
+  unfold squareList
+  rw [colFold_append, colFold_flatMap]
+  have hne : ∀ a b, a < b → b < cols → cix cols i i ≠ cix cols a b := by
+    intro a b hab hb e
+    have := cix_inj cols i i a b (Nat.le_refl _) hi (by omega) hb e
+    omega
+  rw [colFold_range_map_one cols (copyU n cols rs Dv) _ i (fun k hk hki => by
+    left
+    intro e
+    have := cix_inj cols k k i i (Nat.le_refl _) hk (Nat.le_refl _) hi e
+    omega)]
+  have e : (copyU n cols rs Dv i).1 = cix cols i i := rfl
+  rw [e, if_pos ⟨hi, rfl⟩]
+  show (List.range cols).foldl (fun v x => colFold ((List.range cols).map (sqPairU cols Dv Pv x)) (cix cols i i) v) (vecCopy n rs (Dv i)) = _
+  apply foldl_range_none cols (fun x v => colFold ((List.range cols).map (sqPairU cols Dv Pv x)) (cix cols i i) v)
+  intro k hk
+  funext w
+  rw [colFold_range_map_one cols _ _ cols (fun j hj _ => by
+    unfold sqPairU
+    by_cases hkj : k < j
+    · left; simp only [hkj, if_true]; exact fun e => hne k j hkj hj e.symm
+    · right; simp [hkj])]
+  simp
+
+theorem squareList_off (n cols rs : Nat) (Dv : Nat → Col) (Pv : Nat → Nat → Col) (i j : Nat) (hij : i < j) (hj : j < cols) (v : Col) :
+    colFold (squareList n cols rs Dv Pv) (cix cols i j) v = vecSubAssignW w64 (vecSubAssignW w64 (Pv i j) (Dv i)) (Dv j) := by
+  have hi : i < cols := by omega
+  unfold squareList
+  rw [colFold_append, colFold_flatMap]
+  have hne : ∀ a b, a < b → b < cols → (a ≠ i ∨ b ≠ j) → cix cols i j ≠ cix cols a b := by
+    intro a b hab hb hd e
+    have := cix_inj cols i j a b (by omega) hj (by omega) hb e
+    omega
+  rw [colFold_range_map_one cols (copyU n cols rs Dv) _ cols (fun k hk _ => by
+    left
+    intro e
+    have := cix_inj cols k k i j (Nat.le_refl _) hk (by omega) hj e
+    omega)]
+  simp only [Nat.lt_irrefl, false_and, if_false]
+  have hp := foldl_range_one cols (fun x w => colFold ((List.range cols).map (sqPairU cols Dv Pv x)) (cix cols i j) w) i hi (by
+    intro k hk hki
+    funext w
+    rw [colFold_range_map_one cols _ _ cols (fun j' hj' _ => by
+      unfold sqPairU
+      by_cases hkj : k < j'
+      · left; simp only [hkj, if_true]; exact fun e => hne k j' hkj hj' (Or.inl hki) e.symm
+      · right; simp [hkj])]
+    simp)
+  rw [hp]
+  rw [colFold_range_map_one cols _ _ j (fun j' hj' hjj => by
+    unfold sqPairU
+    by_cases hkj : i < j'
+    · left; simp only [hkj, if_true]; exact fun e => hne i j' hkj hj' (Or.inr hjj) e.symm
+    · right; simp [hkj])]
+  unfold sqPairU
+  simp [hij, hj]
+
+theorem squareList_miss (n cols rs : Nat) (Dv : Nat → Col) (Pv : Nat → Nat → Col) (c : Nat)
+    (h : ∀ i j, i ≤ j → j < cols → c ≠ cix cols i j) (v : Col) :
+    colFold (squareList n cols rs Dv Pv) c v = v := by
+  unfold squareList
+  rw [colFold_append, colFold_flatMap]
+  rw [colFold_range_map_one cols (copyU n cols rs Dv) _ cols (fun k hk _ => by
+    left
+    exact fun e => h k k (Nat.le_refl _) hk e.symm)]
+  simp only [Nat.lt_irrefl, false_and, if_false]
+  apply foldl_range_none cols (fun x v => colFold ((List.range cols).map (sqPairU cols Dv Pv x)) c v)
+  intro k hk
+  funext w
+  rw [colFold_range_map_one cols _ _ cols (fun j hj _ => by
+    unfold sqPairU
+    by_cases hkj : k < j
+    · left; simp only [hkj, if_true]; exact fun e => h k j (by omega) hj e.symm
+    · right; simp [hkj])]
+  simp
+
+/-! ### the column index is onto `[0, cols(cols+1)/2)` (every rank) -/
+
+theorem cix_row (r i d : Nat) : cix r i (i + d) = cix r i i + d := by unfold cix; omega
+
+theorem cix_diag_succ (r i : Nat) (hi : i < r) : cix r (i + 1) (i + 1) = cix r i i + (r - i) := by
+  unfold cix colIdx
+  have h1 := two_mul_tri i
+  have h2 := two_mul_tri (i + 1)
+  have h3 : (i + 1) * r = i * r + r := Nat.succ_mul i r
+  have h4 : (i + 1) * (i + 1 + 1) = i * (i + 1) + 2 * (i + 1) := by ring
+  have h5 : i * (i + 1) ≤ 2 * (i * r) := by nlinarith
+  have h6 : (i + 1) * (i + 1 + 1) ≤ 2 * ((i + 1) * r) := by nlinarith
+  omega
+
+theorem cix_top (r : Nat) : cix r r r = (r + 1) * r / 2 := by
+  unfold cix colIdx
+  rw [Nat.mul_comm (r + 1) r]
+  have h1 := two_mul_tri r
+  have h4 : r * (r + 1) = r * r + r := by ring
+  have h5 : 2 * r ≤ r * (r + 1) := by
+    cases r with
+    | zero => simp
+    | succ q => nlinarith
+  generalize r * (r + 1) = m at h1 h4 h5 ⊢
+  generalize r * r = k at h4 ⊢
+  omega
+
+theorem cix_surj_below (r : Nat) : ∀ i, i ≤ r → ∀ t, t < cix r i i → ∃ a b, a ≤ b ∧ b < r ∧ t = cix r a b := by
+  intro i
+  induction i with
+  | zero =>
+    intro _ t ht
+    simp [cix, colIdx] at ht
+  | succ k ih =>
+    intro hk t ht
+    rw [cix_diag_succ r k (by omega)] at ht
+    by_cases h : t < cix r k k
+    · exact ih (by omega) t h
+    · refine ⟨k, k + (t - cix r k k), by omega, by omega, ?_⟩
+      rw [cix_row]; omega
+
+/-- **surjectivity for every rank**: every column `t < cols(cols+1)/2` of the tensor holds a pair `(a, b)`, `a ≤ b < cols` -/
+theorem cix_surj (r t : Nat) (ht : t < (r + 1) * r / 2) : ∃ a b, a ≤ b ∧ b < r ∧ t = cix r a b :=
+  cix_surj_below r r (Nat.le_refl _) t (by rw [cix_top]; exact ht)
+
+/-! ### the two model-level laws, every rank -/
+
+theorem list_ext_getD (x y : List Col) (hlen : x.length = y.length) (h : ∀ c, c < x.length → x.getD c [] = y.getD c []) : x = y := by
+  apply List.ext_getElem hlen
+  intro i h1 h2
+  have := h i h1
+  simpa [List.getD_eq_getElem?_getD, h1, h2] using this
+
+/-- **squaring = multiplying by itself, every rank** (every defined normalised product of shape `rs × n`) -/
+theorem square_eq_apply_all (n cols rs : Nat) (D : Nat → Option Col) (P : Nat → Nat → Option Col) (res0 : List Col)
+    (hDt : ∀ i, i < cols → ∃ d, D i = some d) (hPt : ∀ i j, i < j → j < cols → ∃ p, P i j = some p)
+    (hD : ∀ i d, D i = some d → ColShape n rs d) (hP : ∀ i j p, P i j = some p → ColShape n rs p) :
+    tensorSquareCore n cols rs D P res0 = tensorApplyCore false n cols rs D P res0 := by
+  have hDv : ∀ i, i < cols → D i = some ((D i).getD []) := by
+    intro i hi; obtain ⟨d, hd⟩ := hDt i hi; rw [hd]; rfl
+  have hPv : ∀ i j, i < j → j < cols → P i j = some ((P i j).getD []) := by
+    intro i j hij hj; obtain ⟨p, hp⟩ := hPt i j hij hj; rw [hp]; rfl
+  rw [tensorSquareCore_some n cols rs D P (fun i => (D i).getD []) (fun i j => (P i j).getD []) res0 hDv hPv,
+    tensorApplyCore_some false n cols rs D P (fun i => (D i).getD []) (fun i j => (P i j).getD []) res0 hDv hPv]
+  congr 1
+  apply list_ext_getD
+  · rw [foldl_applyU_length, foldl_applyU_length]
+  · intro c hc
+    rw [foldl_applyU_length] at hc
+    rw [foldl_applyU_getD _ _ c hc, foldl_applyU_getD _ _ c hc]
+    by_cases hdec : ∃ i j, i ≤ j ∧ j < cols ∧ c = cix cols i j
+    · obtain ⟨i, j, hij, hj, rfl⟩ := hdec
+      by_cases he : i = j
+      · subst he
+        rw [squareList_diag _ _ _ _ _ i hj, applyList_diag _ _ _ _ _ _ i hj]
+        rfl
+      · have hlt : i < j := by omega
+        rw [squareList_off _ _ _ _ _ i j hlt hj, applyList_off _ _ _ _ _ _ i j hlt hj]
+        simp only [Bool.false_eq_true, if_false]
+        exact (col_square n rs _ _ _ (hD i _ (hDv i (by omega))) (hD j _ (hDv j hj)) (hP i j _ (hPv i j hlt hj))).symm
+    · push_neg at hdec
+      rw [squareList_miss _ _ _ _ _ c (fun i j hij hj => hdec i j hij hj), applyList_miss _ _ _ _ _ _ c (fun i j hij hj => hdec i j hij hj)]
+
+/-- **accumulate = previous + product, every rank** -/
+theorem acc_eq_add_all (n cols rs : Nat) (D : Nat → Option Col) (P : Nat → Nat → Option Col) (res0 zs : List Col)
+    (hr : res0.length = (cols + 1) * cols / 2) (hz : zs.length = (cols + 1) * cols / 2)
+    (hshape : ∀ r ∈ res0, ColShape n rs r)
+    (hDt : ∀ i, i < cols → ∃ d, D i = some d) (hPt : ∀ i j, i < j → j < cols → ∃ p, P i j = some p)
+    (hD : ∀ i d, D i = some d → ColShape n rs d) (hP : ∀ i j p, P i j = some p → ColShape n rs p) :
+    tensorApplyCore true n cols rs D P res0
+      = (tensorApplyCore false n cols rs D P zs).map (fun pr => List.zipWith (vecAddAssignW w64) res0 pr) := by
+  have hDv : ∀ i, i < cols → D i = some ((D i).getD []) := by
+    intro i hi; obtain ⟨d, hd⟩ := hDt i hi; rw [hd]; rfl
+  have hPv : ∀ i j, i < j → j < cols → P i j = some ((P i j).getD []) := by
+    intro i j hij hj; obtain ⟨p, hp⟩ := hPt i j hij hj; rw [hp]; rfl
+  rw [tensorApplyCore_some true n cols rs D P (fun i => (D i).getD []) (fun i j => (P i j).getD []) res0 hDv hPv,
+    tensorApplyCore_some false n cols rs D P (fun i => (D i).getD []) (fun i j => (P i j).getD []) zs hDv hPv]
+  simp only [Option.map_some]
+  congr 1
+  apply list_ext_getD
+  · rw [foldl_applyU_length, List.length_zipWith, foldl_applyU_length, hr, hz]; simp
+  · intro c hc
+    rw [foldl_applyU_length] at hc
+    have hcz : c < zs.length := by rw [hz, ← hr]; exact hc
+    have hzw : (List.zipWith (vecAddAssignW w64) res0
+        ((applyList false n cols rs (fun i => (D i).getD []) (fun i j => (P i j).getD [])).foldl applyU zs)).getD c []
+        = vecAddAssignW w64 (res0.getD c [])
+            (((applyList false n cols rs (fun i => (D i).getD []) (fun i j => (P i j).getD [])).foldl applyU zs).getD c []) := by
+      have h2 : c < ((applyList false n cols rs (fun i => (D i).getD []) (fun i j => (P i j).getD [])).foldl applyU zs).length := by
+        rw [foldl_applyU_length]; exact hcz
+      simp [List.getD_eq_getElem?_getD, List.getElem?_zipWith, List.getElem?_eq_getElem hc, List.getElem?_eq_getElem h2]
+    rw [hzw, foldl_applyU_getD _ _ c hc, foldl_applyU_getD _ _ c hcz]
+    obtain ⟨i, j, hij, hj, rfl⟩ := cix_surj cols c (by rw [← hr]; exact hc)
+    have hrc : ColShape n rs (res0.getD (cix cols i j) []) := by
+      rw [List.getD_eq_getElem?_getD, List.getElem?_eq_getElem hc]
+      exact hshape _ (List.getElem_mem hc)
+    by_cases he : i = j
+    · subst he
+      rw [applyList_diag _ _ _ _ _ _ i hj, applyList_diag _ _ _ _ _ _ i hj]
+      show vecAddAssignW w64 _ ((D i).getD []) = vecAddAssignW w64 _ (vecCopy n rs ((D i).getD []))
+      exact col_acc_diag n rs _ _ (hD i _ (hDv i hj)).1
+    · have hlt : i < j := by omega
+      rw [applyList_off _ _ _ _ _ _ i j hlt hj, applyList_off _ _ _ _ _ _ i j hlt hj]
+      simp only [Bool.false_eq_true, if_false, if_true]
+      exact col_acc n rs _ _ _ _ hrc (hD i _ (hDv i (by omega))) (hD j _ (hDv j hj)) (hP i j _ (hPv i j hlt hj))
+
 end Core
